@@ -160,6 +160,22 @@ def ctx_text(c, parent):
     return text
 
 
+def ctx_full_text(c, parent, is_child):
+    """the whole entry line of a context: its text plus the trailing note `  # name: Type (line N)`; the line note is
+    given for a frame's own contexts (wherever that frame sits in the tree) and never for child-context entries"""
+    text = ctx_text(c, parent)
+    parts = []
+    if c.obj is not None:
+        parts.append("%s: %s" % (c.varname or "_", type(c.obj).__name__))
+    elif c.varname is not None:
+        parts.append("%s" % c.varname)
+    if not is_child and c.start_line is not None:
+        parts.append("(line %d)" % c.start_line)
+    if parts:
+        text += "  # " + " ".join(parts)
+    return text
+
+
 def exp_stack_nodes(st, opts):
     out = []
     for f in st.frames:
@@ -170,7 +186,7 @@ def exp_stack_nodes(st, opts):
             for c in f.contexts:
                 if c.hide and not opts["show_hidden_frames"]:
                     continue
-                kids.append(["C", ctx_text(c, f), exp_ctx_nodes(c, opts)])
+                kids.append(["C", ctx_full_text(c, f, False), exp_ctx_nodes(c, opts), "exact"])
         if not (f.contexts and f.contexts[-1].is_exiting):
             code = linecache.getline(FILENAME, f.lineno).strip()
             if code and not f.hide_line:
@@ -194,7 +210,7 @@ def exp_ctx_nodes(c, opts):
         else:
             if ch.hide and not opts["show_hidden_frames"]:
                 continue
-            out.append(["N", ctx_text(ch, None), exp_ctx_nodes(ch, opts)])
+            out.append(["N", ctx_full_text(ch, None, True), exp_ctx_nodes(ch, opts), "exact"])
     return out
 
 
@@ -206,7 +222,10 @@ def trees_equal(got, exp, path, problems):
         if g[0] != e[0]:
             problems.append("%s[%d]: read back kind %s (%r), object has %s (%r)" % (path, i, g[0], g[1][:40], e[0], e[1][:40]))
             continue
-        if not g[1].startswith(e[1]):
+        if len(e) > 3 and e[3] == "exact":
+            if g[1] != e[1]:
+                problems.append("%s[%d]: context entry reads %r, the object says %r" % (path, i, g[1][:90], e[1][:90]))
+        elif not g[1].startswith(e[1]):
             problems.append("%s[%d]: text %r does not start with %r" % (path, i, g[1][:60], e[1][:60]))
         trees_equal(g[2], e[2], "%s[%d]" % (path, i), problems)
 
